@@ -1,11 +1,13 @@
 /-! Model of BlobCache.Consume (internal/plumbing/blob_cache.go).  The object store is a per-entry fact:
-    `present` = the repository has the blob, `sub` = the tree entry is a submodule. -/
+    `present` = the repository has the blob, `sub` = the tree entry is a submodule, `corrupt` = the blob is there but
+    cannot be read completely (`CachedBlob.Cache` fails). -/
 namespace Bc
 
 structure Ent where
   hash : Nat
   sub : Bool
   present : Bool
+  corrupt : Bool := false
   deriving Repr, DecidableEq
 
 inductive Chg | ins (to : Ent) | del (src : Ent) | mod (src to : Ent)
@@ -20,8 +22,9 @@ abbrev Cache := List (Nat × Slot)
 def put (c : Cache) (h : Nat) (s : Slot) : Cache := (h, s) :: c.filter (·.1 ≠ h)
 def get (c : Cache) (h : Nat) : Option Slot := (c.find? (·.1 = h)).map (·.2)
 
-/-- getBlob: found; or a missing submodule entry → placeholder; or an error -/
-def getBlob (e : Ent) : Option Unit := if e.present || e.sub then some () else none
+/-- getBlob followed by Cache(): found and read completely; or a missing submodule entry → placeholder; or an error -/
+def getBlob (e : Ent) : Option Unit :=
+  if (e.present && !e.corrupt) || (e.sub && !e.present) then some () else none
 
 structure St where
   out : Cache        -- `cache` handed downstream
@@ -36,7 +39,9 @@ def stepChg (prev : Cache) (s : St) : Chg → Option St
   | .del src =>
     match get prev src.hash with
     | some v => some { s with out := put s.out src.hash v }
-    | none => some { s with out := put s.out src.hash .blob }      -- loaded, or the dummy for a missing object
+    | none =>
+      -- loaded, or the dummy for a missing object; a blob that is there but cannot be read is an error
+      if src.present && src.corrupt then none else some { s with out := put s.out src.hash .blob }
   | .mod src to =>
     let toOk := (getBlob to).isSome
     let s1 : St := ⟨put s.out to.hash (if toOk then .blob else .zero), put s.next to.hash (if toOk then .blob else .zero)⟩
